@@ -234,6 +234,7 @@ def jobs(tier):
     out.append(Job('C16', 's1.cancel', t_cancel, dict(mode='step', kmax=40 if tier == 'quick' else 80), max_paths=4000))
     out.append(Job('C16', 's1.cancel', t_cancel, dict(mode='step', warm=True, kmax=25), max_paths=4000))
     out.append(Job('C16', 's1.stop', t_stop, dict(mode='time', timeout=None, backlog=1, slow_to_die=True), witnesses=('stop mid-handler',)))
+    out.append(Job('C16', 's1.stop', t_stop, dict(mode='tie', timeout=None, backlog=1), witnesses=('stop mid-handler',)))
     out.append(Job('C16', 's1.stop', t_stop, dict(mode='time', timeout=None, backlog=1, await_child=True), witnesses=('stop mid-handler',)))
     out.append(Job('C16', 's1.cancel', t_cancel, dict(mode='time', await_child=True)))
     from .. import scenlib as S
